@@ -3,10 +3,8 @@ import Hive.Proofs.BatchWriterLife
 # C08 proofs, part 4: what Stop has to wait for, and the monitor's verdicts
 
 `NInv s`: `need ≤ sch` (every Enqueue that returned before Stop was invoked is covered by a scheduling),
-the scheduled flag alternates with resets, `fin`: once the writer has left its loop without a producer having
-been inside the Enqueue window when Stop cleared `running`, every scheduling has been written, committed and
-done; `errs`: the only check of the trace predicate that can ever fail on a model trace is
-`stop-returned-early`, and only after such a race.
+the scheduled flag alternates with resets, `fin`: once the writer has left its loop every scheduling has been written, committed and done; `errs`: no
+check of the trace predicate ever fails on a model trace.
 -/
 namespace Hive.BatchWriter
 open Hive.Conc Hive.Spec.BatchWriter
@@ -15,8 +13,8 @@ structure NInv (s : St) : Prop where
   need0 : s.once < 3 → ∀ o, s.mon.need o = 0
   need_sch : ∀ o, s.mon.need o ≤ s.mon.sch o
   sch_rst : ∀ o, s.mon.sch o = s.rst o + (if s.flag o = true then 1 else 0)
-  fin : s.raced = false → (s.wpc = .wgDone ∨ s.wpc = .exited) → ∀ o, s.mon.sch o = s.mon.dn o
-  errs : ∀ w ∈ s.mon.errs, w = .stopReturnedEarly ∧ s.raced = true
+  fin : (s.wpc = .wgDone ∨ s.wpc = .exited) → ∀ o, s.mon.dn o = s.mon.sch o
+  errs : s.mon.errs = []
 
 set_option hygiene false in
 macro "heavyN" : tactic => `(tactic|
@@ -24,13 +22,12 @@ macro "heavyN" : tactic => `(tactic|
    (try have w1 := (hw o).dn_com) <;> (try have w2 := (hw o).com_wr) <;> (try have w3 := (hw o).wr_rst) <;>
    (try have w4 := (hw o).rst_rcv) <;> (try have w5 := (hw o).rcv_snt) <;>
    (try simp [emit, Mon.step, TInv, holdW, holdR, atTop, inWin, bodyPre, upd_apply, Tab.get_set, *] at *) <;>
-      (try split) <;> (try simp_all [Tab.get_set]) <;> (try split) <;> (try subst_vars) <;> (try omega) <;>
-      (try (intro hx; have hy := h5 _ hx; simp_all))))
+      (try split) <;> (try simp_all [Tab.get_set]) <;> (try split) <;> (try subst_vars) <;> (try omega)))
 
 theorem fin_of_exit {s : St} (hw : ∀ o, WO s o) (hs : WS s)
-    (hex : s.wpc = .loopCnt → s.count = 0 → s.raced = false → ∀ o, s.mon.sch o = s.rcv o)
-    (h1 : s.wpc = .loopCnt) (h2 : s.count = 0) (h3 : s.raced = false) (o : Nat) : s.mon.sch o = s.mon.dn o := by
-  have e := hex h1 h2 h3 o
+    (hex : s.wpc = .loopCnt → s.count = 0 → ∀ o, s.mon.sch o = s.rcv o)
+    (h1 : s.wpc = .loopCnt) (h2 : s.count = 0) (o : Nat) : s.mon.dn o = s.mon.sch o := by
+  have e := hex h1 h2 o
   obtain ⟨a1, a2, a3, a4, a5⟩ := hw o
   have t := hs.top (Or.inl (Or.inr (Or.inr (Or.inl h1))))
   have t2 := hs.todo_nil (by simp [h1])
@@ -38,23 +35,24 @@ theorem fin_of_exit {s : St} (hw : ∀ o, WO s o) (hs : WS s)
   omega
 
 theorem need_le_dn {s : St} (h2 : ∀ o, s.mon.need o ≤ s.mon.sch o)
-    (h4 : s.raced = false → (s.wpc = .wgDone ∨ s.wpc = .exited) → ∀ o, s.mon.sch o = s.mon.dn o)
-    (hr : s.raced = false) (ht : s.wpc = .exited ∨ ∀ o, s.mon.need o = 0) (x : Nat) : s.mon.need x ≤ s.mon.dn x := by
+    (h4 : (s.wpc = .wgDone ∨ s.wpc = .exited) → ∀ o, s.mon.dn o = s.mon.sch o)
+    (ht : s.wpc = .exited ∨ ∀ o, s.mon.need o = 0) (x : Nat) : s.mon.need x ≤ s.mon.dn x := by
   rcases ht with ht | ht
-  · have := h4 hr (Or.inr ht) x; have := h2 x; omega
+  · have := h4 (Or.inr ht) x; have := h2 x; omega
   · simp [ht x]
 
+set_option maxRecDepth 4096 in
 set_option hygiene false in
 theorem ninv_step {s s' : St} {t t' : Thread} (h : NInv s) (hw : ∀ o, WO s o) (hs : WS s) (hl : LInv s)
     (ht : TInv s t) (hc : CFacts s t) (hsn : ∀ o, s.snt o ≤ s.mon.sch o)
-    (hex : s.wpc = .loopCnt → s.count = 0 → s.raced = false → ∀ o, s.mon.sch o = s.rcv o)
+    (hex : s.wpc = .loopCnt → s.count = 0 → ∀ o, s.mon.sch o = s.rcv o)
     (hm : (s', t') ∈ step s t) : NInv s' := by
   obtain ⟨h1, h2, h3, h4, h5⟩ := h
   have f1 := fin_of_exit hw hs hex
   have f2 := need_le_dn h2 h4
-  have f3 : inWin t = true → s.raced = false → ¬ (s.wpc = .wgDone ∨ s.wpc = .exited) := by
-    intro a b c
-    have := hl.k (hl.w_stopped (Or.inr c)) b
+  have f3 : inWin t = true → ¬ (s.wpc = .wgDone ∨ s.wpc = .exited) := by
+    intro a c
+    have := hl.fin_win c
     have := hc.win a
     omega
   have f4 : bodyPre t = true → ∀ o, s.mon.need o = 0 := by
@@ -76,21 +74,14 @@ theorem ninv_step {s s' : St} {t t' : Thread} (h : NInv s) (hw : ∀ o, WO s o) 
     · exact hf
     · simp [hf] at *; omega
   have f9 : (s.wpc = .exited ∨ ∀ o, s.mon.need o = 0) → (∃ x, x ∈ s.mon.objs ∧ s.mon.dn x < s.mon.need x) →
-      s.raced = true := by
+      False := by
     intro a ⟨x, _, hx⟩
-    by_cases hr : s.raced = true
-    · exact hr
-    · have := f2 (by simpa using hr) a x; omega
+    have := f2 a x; omega
   clear hex hs hl hc
   step_cases
   all_goals (
     refine ⟨?_, ?_, ?_, ?_, ?_⟩ <;> first | exact h1 | exact h2 | exact h3 | exact h4 | exact h5 | heavyN)
   · have a := h2 o; have b := ht.1; omega
   · have a := h2 o; omega
-  · rintro (hx | rfl)
-    · exact h5 _ hx
-    · rename_i hex'
-      obtain ⟨x, hx1, hx2⟩ := hex'
-      exact ⟨rfl, f9 x hx1 hx2⟩
   · intro e; subst e; simp_all
 end Hive.BatchWriter
